@@ -51,6 +51,7 @@
 import LispModel.Core
 import LispModel.Eval
 import LispModel.Proofs.CoreLaws
+import LispModel.Proofs.SeedLaws
 namespace LispModel.Props.C13
 open LispModel LispModel.Core LispModel.CoreLaws
 
@@ -595,5 +596,28 @@ example : callBuiltin 5 initState "map" [.builtin "count", .vec [.list [.int 1] 
   map_pure_builtin "count" (fun v => match v with | .list xs _ => .int xs.length | _ => .int 0)
     (by decide) initState 0 (Seq_vec _ none)
     (by intro x hx; simp at hx; rcases hx with rfl | rfl <;> rfl) 5 (by decide)
+
+/-! ## laws added after the seeded changes of rounds 3–5
+  (`merge_right_biased` was asked for again and is the theorem of that name above.) -/
+open LispModel.Proofs.SeedLaws.C13 (eraseAll)
+
+/-- `(dissoc m k₁ … kₙ)` (n ≥ 1, keys strings / keywords) removes ALL the keys: it is the fold of the
+    single-key `dissoc` over the keys, left to right -/
+theorem dissoc_many (m : List (String × Val)) (ks : List String) (hne : ks ≠ []) (hl : ks.length < 1000) :
+    callOk "dissoc" (.map m :: ks.map .str) (.map (eraseAll m ks)) ∧
+    (∀ acc k, callOk "dissoc" [.map acc, .str k] (.map (aerase k acc))) ∧
+    eraseAll m ks = ks.foldl (fun acc k => aerase k acc) m :=
+  Proofs.SeedLaws.C13.dissoc_many m ks hne hl
+
+/-- `(contains? (assoc m k nil) k) = true` although `(get (assoc m k nil) k) = nil` -/
+theorem contains_present_nil (m : List (String × Val)) (k : String) :
+    ∃ r, callOk "assoc" [.map m, .str k, .nil] r ∧ callOk "contains?" [r, .str k] (.bool true) ∧
+      callOk "get" [r, .str k] .nil :=
+  Proofs.SeedLaws.C13.contains_present_nil m k
+
+/-- `(concat v)` for ONE vector `v` is the LIST of its elements (instance of `concat_spec`) -/
+theorem concat_one_vector_is_list (xs : List Val) (p : Option Pos) :
+    callOk "concat" [.vec xs p] (.list xs none) :=
+  Proofs.SeedLaws.C13.concat_one_vector_is_list xs p
 
 end LispModel.Props.C13
